@@ -5,7 +5,7 @@ cd $V/seeded || exit 2
 for d in */; do
   d=${d%/}
   [ -f "$d/patch.diff" ] || continue
-  case "$d" in *neutralised*) continue;; esac
+  case "$d" in *neutralised*|*not-reachable*) continue;; esac
   p=$(python3 -c "import json;m=json.load(open('$d/meta.json'));print(m.get('check_with',m['breaks_property']))")
   patch=$d/patch.diff; [ -f "$d/patch.ported.diff" ] && patch=$d/patch.ported.diff
   out=$($V/seedtest.sh $V/seeded/$patch ${1:-quick} $p 2>&1)
